@@ -676,6 +676,50 @@ fn produce_assembled_mixed_b64(signers: &[Signer], events: &mut Vec<SignEvent>) 
   })
 }
 
+/// A compact token assembled by hand by a signer whose software spells the algorithm its own way: the fully-specified
+/// name of RFC 9864 (`Ed25519`), another case, a trailing blank. The signature is genuine; the `alg` text of the
+/// protected header is not the registered name the signer's key is for (and not what a receiver's key pins): such a
+/// token must not be reported verified.
+fn produce_assembled_alg_spelling(signers: &[Signer], events: &mut Vec<SignEvent>) -> Option<Notice> {
+  let candidates: Vec<usize> = (0..signers.len()).filter(|i| signers[*i].alg == "EdDSA").collect();
+  if candidates.is_empty() {
+    return None;
+  }
+  let si = candidates[ctx::choose(candidates.len())];
+  let spelled = ["Ed25519", "eddsa", "EDDSA", "EdDSA ", "Ed25519ph"][ctx::choose(5)];
+  let raw = gen_payload(true, Ser::Compact, false);
+  let hj = serde_json::json!({"alg": spelled, "kid": signers[si].kid()});
+  let protected_b64 = b64(hj.to_string().as_bytes());
+  let payload_b64 = b64(&raw);
+  let input = format!("{protected_b64}.{payload_b64}").into_bytes();
+  let sig = signers[si].sign(&input).ok()?;
+  events.push(SignEvent {
+    signer: si,
+    signing_input: input,
+    signature: sig.clone(),
+  });
+  ctx::stat("probe.assembled_alg_spelling");
+  ctx::sched("algspelling", spelled.len() as u64);
+  Some(Notice {
+    ser: Ser::Compact,
+    wire: format!("{protected_b64}.{payload_b64}.{}", b64(&sig)),
+    detached: None,
+    b64: true,
+    raw_payload: raw,
+    signed_payload: payload_b64.into_bytes(),
+    parts: vec![SigPart {
+      signer: si,
+      protected_b64,
+      protected: hj,
+      unprotected: None,
+      signature: sig,
+    }],
+    nonce: None,
+    via_create_jws: false,
+    assembled: true,
+  })
+}
+
 /// create_jws on the signer's document with tape-drawn JwsSignatureOptions, possibly under storage faults.
 fn produce_create_jws(signers: &[Signer], si: usize, faulty: bool) -> Option<Notice> {
   let s = &signers[si];
@@ -1648,6 +1692,92 @@ fn separation(signers: &[Signer], n: &Notice) {
   }
 }
 
+/// An application brings its own key whose JWK names the algorithm its own way (`"alg": "Ed25519"`, the
+/// fully-specified name of RFC 9864; another case). Whether the store and `create_jws` take such a key is their
+/// decision - but IF a token comes out, it verifies against the document and key it was produced for.
+fn jwk_alg_spelled_differently_scenario() {
+  use identity_storage::JwkMemStore;
+  use identity_storage::KeyIdMemstore;
+  use identity_storage::Storage;
+  let did = "did:sim:ownkey";
+  let spelled = ["Ed25519", "eddsa", "EDDSA", "Ed25519ph"][ctx::choose(4)];
+  let storage: Storage<JwkMemStore, KeyIdMemstore> = Storage::new(JwkMemStore::new(), KeyIdMemstore::new());
+  let mut seed = [0u8; 32];
+  seed.copy_from_slice(&ctx::bytes(32));
+  let sk = crypto::signatures::ed25519::SecretKey::from_bytes(&seed);
+  let x = b64(sk.public_key().as_ref());
+  let Ok(private) = serde_json::from_value::<Jwk>(serde_json::json!({"kty":"OKP","crv":"Ed25519","alg": spelled,"x": x,"d": b64(&seed)})) else { return };
+  let Ok(public) = serde_json::from_value::<Jwk>(serde_json::json!({"kty":"OKP","crv":"Ed25519","alg": spelled,"x": x})) else { return };
+  ctx::stat("probe.jwk_alg_spelled_differently");
+  ctx::sched("jwkalg", spelled.len() as u64);
+  let Ok(key_id) = block_on(storage.key_storage().insert(private)) else {
+    ctx::stat("probe.jwk_alg_spelled_differently.refused_by_store");
+    return;
+  };
+  let Ok(method) = VerificationMethod::new_from_jwk(CoreDID::parse(did).unwrap(), public, Some("odd")) else { return };
+  let Ok(digest) = MethodDigest::new(&method) else { return };
+  let mut doc = CoreDocument::builder(Default::default()).id(CoreDID::parse(did).unwrap()).build().expect("empty doc");
+  if doc.insert_method(method, MethodScope::VerificationMethod).is_err() || block_on(storage.key_id_storage().insert_key_id(digest, key_id)).is_err() {
+    return;
+  }
+  let payload = b"made with a key that names its algorithm its own way".to_vec();
+  let Ok(jws) = block_on(doc.create_jws(&storage, "odd", &payload, &JwsSignatureOptions::default())) else {
+    ctx::stat("probe.jwk_alg_spelled_differently.refused_by_create_jws");
+    return;
+  };
+  match doc.verify_jws(jws.as_str(), None, &EdDSAJwsVerifier::default(), &JwsVerificationOptions::default()) {
+    Ok(decoded) if decoded.claims.as_ref() == payload.as_slice() => {}
+    Ok(_) => ctx::violation("C08", "C08.produced_token_decodes_and_verifies", "jwk-alg-spelled-differently/claims-differ", "claims differ from the signed payload"),
+    Err(e) => ctx::violation(
+      "C08",
+      "C08.produced_token_decodes_and_verifies",
+      "jwk-alg-spelled-differently/produced-token-does-not-verify",
+      format!("create_jws with a key whose JWK says alg {spelled:?} returned a token that does not verify against the document it was produced with: {e}"),
+    ),
+  }
+}
+
+/// Crash probes of C01 (child processes, see `core::batch`).
+pub fn crash_probes(_tier: &str) -> Vec<String> {
+  vec!["boxed-verifier".to_owned()]
+}
+
+/// Child-process side: a token made by a stored signer is verified through a `Box<dyn JwsVerifier>` (how an
+/// application that chooses its verifier at run time holds it), once intact and once with a flipped signature bit, on a
+/// thread with a 2 MiB stack. The intact token verifies, the damaged one is refused - and both calls return.
+pub fn run_crash_probe(_name: &str) -> String {
+  let clock = Clock { now: ctx::BASE_TIME };
+  let mut p = Party::new("signer", false, 3);
+  clock.enter(0);
+  if p.gen_method("key", None).is_err() {
+    return "harness: no signer".to_owned();
+  }
+  let doc: CoreDocument = p.doc.core().clone();
+  let jws = match block_on(doc.create_jws(&p.storage, "key", b"verified through a boxed verifier", &JwsSignatureOptions::default())) {
+    Ok(j) => j.as_str().to_owned(),
+    Err(e) => return format!("harness: create_jws failed: {e}"),
+  };
+  let worker = std::thread::Builder::new().stack_size(2 * 1024 * 1024).spawn(move || {
+    let boxed: Box<dyn JwsVerifier> = Box::new(EdDSAJwsVerifier::default());
+    let intact = doc.verify_jws(jws.as_str(), None, &boxed, &JwsVerificationOptions::default()).is_ok();
+    let mut damaged = jws.clone().into_bytes();
+    let last = damaged.len() - 2;
+    damaged[last] = if damaged[last] == b'A' { b'B' } else { b'A' };
+    let damaged = String::from_utf8(damaged).unwrap_or_default();
+    let refused = doc.verify_jws(damaged.as_str(), None, &boxed, &JwsVerificationOptions::default()).is_err();
+    match (intact, refused) {
+      (true, true) => "error: intact token verified, damaged token refused".to_owned(),
+      (false, _) => "wrong: the intact token did not verify through the boxed verifier".to_owned(),
+      (_, false) => "wrong: a token with a damaged signature verified through the boxed verifier".to_owned(),
+    }
+  });
+  match worker.map(|w| w.join()) {
+    Ok(Ok(s)) => s,
+    Ok(Err(_)) => "panic: verifier thread".to_owned(),
+    Err(e) => format!("harness: cannot spawn verifier thread: {e}"),
+  }
+}
+
 /// A document assembled elsewhere embeds a verification method of ANOTHER DID (`did:sim:fellow#fk`, e.g. a key of a
 /// partner organisation) whose key lives in this party's storage. A token produced through the storage-backed call
 /// with that method names that method (`kid` = the method's id) and verifies against the document it was produced
@@ -1746,6 +1876,9 @@ pub fn run(prop: &str, _params: &Params) {
   if prop == "C08" && ctx::choose(10) == 0 {
     foreign_embedded_method_scenario(&clock);
   }
+  if prop == "C08" && ctx::choose(12) == 0 {
+    jwk_alg_spelled_differently_scenario();
+  }
   let faulty_storage = prop == "C08" && ctx::choose(2) == 0;
   // one receiver in three files all trusted keys under one label of its own (unique per run)
   let trust_label: Option<String> = if ctx::chance(1, 3) { Some(format!("trusted-{:08x}", ctx::choose(1 << 30))) } else { None };
@@ -1814,6 +1947,11 @@ pub fn run(prop: &str, _params: &Params) {
   }
   if prop == "C01" && ctx::choose(3) == 0 {
     if let Some(n) = produce_assembled_mixed_b64(&signers, &mut events) {
+      notices.push(n);
+    }
+  }
+  if prop == "C01" && ctx::choose(6) == 0 {
+    if let Some(n) = produce_assembled_alg_spelling(&signers, &mut events) {
       notices.push(n);
     }
   }
